@@ -28,7 +28,8 @@ type Job struct {
 	ReplayTo string         `json:"replay_out"` // where a shrunk replay is written
 	Recheck  int            `json:"recheck_every"`
 	MaxLeaks int            `json:"max_leaks"`
-	SigsOut  string         `json:"sigs_out"` // determinism self-test: write one "run signature steps" line per run
+	SigsOut  string         `json:"sigs_out"`           // determinism self-test: write one "run signature steps" line per run
+	DumpRun  *int           `json:"dump_run,omitempty"` // only generate the case of this run and report it as the single sample
 }
 
 // WorkerResult is what a worker reports.
@@ -103,6 +104,12 @@ func TestWorker(t *testing.T) {
 		in.Init(t, job.Seed, job.Tier)
 	}
 	start := time.Now()
+	if job.DumpRun != nil {
+		tape := NewTape(job.Seed, job.Property, *job.DumpRun)
+		res.Samples = []interface{}{prop.Gen(tape, job.Tier, *job.DumpRun)}
+		res.Done = true
+		return
+	}
 	if job.Replay != "" {
 		if cp, ok := prop.(interface{ CrashProne() bool }); ok && cp.CrashProne() {
 			startStallWatchdog(hangLimit)
@@ -327,8 +334,17 @@ func runReplay(t *testing.T, prop Property, job *Job, res *WorkerResult) {
 	var c interface{}
 	var x *Exec
 	if rp.Regen {
+		// generation mode: the tape continues after the generator's draws. A
+		// stored case (htsverif resolve) takes precedence over the generated
+		// one, so that the file keeps its meaning when the generator changes.
 		tape := NewTape(rp.Seed, rp.Property, rp.Run)
 		c = prop.Gen(tape, rp.Tier, rp.Run)
+		if len(rp.Case) > 0 && string(rp.Case) != "null" {
+			c = prop.New()
+			if err := json.Unmarshal(rp.Case, c); err != nil {
+				panic(err)
+			}
+		}
 		x = NewExec(t, tape, res.Stats)
 	} else {
 		c = prop.New()
